@@ -1,5 +1,6 @@
 import PrysmVerif.Generated.C06
 import PrysmVerif.Lemmas.C06Analysis
+import PrysmVerif.Lemmas.C06Model
 import Mathlib.Data.Complex.Basic
 import Mathlib.Tactic.IntervalCases
 /-!
@@ -470,5 +471,140 @@ theorem mse_hasDerivAt (n : Nat) (M D δ : Nat → ℝ) :
     HasDerivAt (fun t : ℝ => mseCost n (fun i => M i + t * δ i) D) (∑ i ∈ range n, mseGrad n M D i * δ i) 0 :=
   hasDerivAt_of_quadratic _ _ _ _ (fun t => mse_grad n M D δ t)
 
+
+/-- bias-and-gain-invariant error, full statement: with the gain and bias re-estimated at every point, the returned
+gradient is the derivative of the returned cost in every direction, for every length `n ≥ 1` and all data that are
+not constant (the spread `bgieDen` the gain divides by is non-zero) -/
+theorem bgie_grad (n : Nat) (hn : 0 < n) (I D δ : Nat → ℝ) (hden : bgieDen n I ≠ 0) :
+    HasDerivAt (fun t : ℝ => bgieCost n (fun i => I i + t * δ i) D) (∑ i ∈ range n, bgieGrad n I D i * δ i) 0 := by
+  have h := bgie_hasDerivAt n hn I D δ hden
+  have e : (fun t : ℝ => bgieCost n (fun i => I i + t * δ i) D)
+      = fun t : ℝ => Model.C06.bgieCost n (fun i => I i + t * δ i) D := rfl
+  rw [e, (gen_bgie n I D).2.1]; exact h
+
+/-- negative log-likelihood: the returned gradient is the derivative of the returned cost wherever `0 ≠ y_i ≠ 1` -/
+theorem nll_grad (n : Nat) (y yhat δ : Nat → ℝ) (hy : ∀ i ∈ range n, y i ≠ 0 ∧ 1 - y i ≠ 0) :
+    HasDerivAt (fun t : ℝ => nllCost Real.log n (fun i => y i + t * δ i) yhat)
+      (∑ i ∈ range n, nllGrad Real.log n y yhat i * δ i) 0 := by
+  have h := nll_hasDerivAt n y yhat δ hy
+  have e : (fun t : ℝ => nllCost Real.log n (fun i => y i + t * δ i) yhat)
+      = fun t : ℝ => Model.C06.nllCost Real.log n (fun i => y i + t * δ i) yhat := rfl
+  rw [e, (gen_nll Real.log n y yhat).2.1]; exact h
+
+/-- the derivation law used by `phase_grad`, instantiated: `φ ↦ A·exp(i k φ)` has derivative `i·k·g` -/
+theorem phase_derivation_law (A k φ : ℝ) :
+    HasDerivAt (fun φ : ℝ => (A : ℂ) * Complex.exp (Complex.I * k * φ))
+      (Complex.I * k * ((A : ℂ) * Complex.exp (Complex.I * k * φ))) φ := by
+  have h1 : HasDerivAt (fun φ : ℝ => Complex.I * k * (φ : ℂ)) (Complex.I * k) φ := by
+    simpa using (Complex.ofRealCLM.hasDerivAt (x := φ)).const_mul (Complex.I * k)
+  have h2 := (h1.cexp).const_mul (A : ℂ)
+  refine h2.congr_deriv ?_
+  ring
+
+/-! ## the deformable mirror: the whole `render` chain (no rotation, no resampling) -/
+section dm
+variable {C : Type} [Field C] (conj : C →+* C) (hc : ∀ a, conj (conj a) = a)
+include hc
+
+/-- padding geometry (`m ≤ M`, `n ≤ N`): scatter → filter → real scale → pad, against
+crop → scale → filter with `conj H` → gather, with the pad/crop offsets translated from `pad2d` / `crop_center`;
+every grid size and parity, every lattice that fits, every transfer function -/
+theorem dm_render_adjoint_pad (ky kx loy sty lox stx m n M N : Nat) (hm : m ≤ M) (hn : n ≤ N)
+    (hsy : 0 < sty) (hsx : 0 < stx) (hly : loy + (ky - 1) * sty < m ∨ ky = 0) (hlx : lox + (kx - 1) * stx < n ∨ kx = 0)
+    (F1 F2 G1 G2 H : Model.C06.Mat C) (c1 c2 c : C)
+    (h1 : ∀ i j, G1 i j = c1 * conj (F1 j i)) (h2 : ∀ i j, G2 i j = c2 * conj (F2 j i))
+    (hc1 : conj c1 = c1) (hc2 : conj c2 = c2) (hcc : conj c = c) (a y : Model.C06.Mat C) :
+    Model.C06.ip2 conj M N y
+        (Model.C06.dmRenderPad ky kx loy sty lox stx m n (padSliceLo m M) (padSliceLo n N) F1 F2 G1 G2 H c a)
+      = Model.C06.ip2 conj ky kx
+        (Model.C06.dmBackPad conj loy sty lox stx m n (cropLo M m) (cropLo N n) F1 F2 G1 G2 H c y) a := by
+  have e1 : cropLo (M : Int) (m : Int) = padSliceLo (m : Int) (M : Int) := by simp only [cropLo, padSliceLo]
+  have e2 : cropLo (N : Int) (n : Int) = padSliceLo (n : Int) (N : Int) := by simp only [cropLo, padSliceLo]
+  rw [e1, e2]
+  exact dm_pad_adjoint conj hc ky kx loy sty lox stx m n M N _ _ (by simp only [padSliceLo]; omega)
+    (by simp only [padSliceLo]; omega) (by simp only [padSliceLo]; omega) (by simp only [padSliceLo]; omega)
+    hsy hsx hly hlx F1 F2 G1 G2 H c1 c2 c h1 h2 hc1 hc2 hcc a y
+
+/-- cropping geometry (`M ≤ m`, `N ≤ n`) -/
+theorem dm_render_adjoint_crop (ky kx loy sty lox stx m n M N : Nat) (hm : M ≤ m) (hn : N ≤ n)
+    (hsy : 0 < sty) (hsx : 0 < stx) (hly : loy + (ky - 1) * sty < m ∨ ky = 0) (hlx : lox + (kx - 1) * stx < n ∨ kx = 0)
+    (F1 F2 G1 G2 H : Model.C06.Mat C) (c1 c2 c : C)
+    (h1 : ∀ i j, G1 i j = c1 * conj (F1 j i)) (h2 : ∀ i j, G2 i j = c2 * conj (F2 j i))
+    (hc1 : conj c1 = c1) (hc2 : conj c2 = c2) (hcc : conj c = c) (a y : Model.C06.Mat C) :
+    Model.C06.ip2 conj M N y
+        (Model.C06.dmRenderCrop ky kx loy sty lox stx m n (cropLo m M) (cropLo n N) F1 F2 G1 G2 H c a)
+      = Model.C06.ip2 conj ky kx
+        (Model.C06.dmBackCrop conj loy sty lox stx m n M N (padSliceLo M m) (padSliceLo N n) F1 F2 G1 G2 H c y) a := by
+  have e1 : padSliceLo (M : Int) (m : Int) = cropLo (m : Int) (M : Int) := by simp only [cropLo, padSliceLo]
+  have e2 : padSliceLo (N : Int) (n : Int) = cropLo (n : Int) (N : Int) := by simp only [cropLo, padSliceLo]
+  rw [e1, e2]
+  exact dm_crop_adjoint conj hc ky kx loy sty lox stx m n M N _ _ (by simp only [cropLo]; omega)
+    (by simp only [cropLo]; omega) (by simp only [cropLo]; omega) (by simp only [cropLo]; omega)
+    hsy hsx hly hlx F1 F2 G1 G2 H c1 c2 c h1 h2 hc1 hc2 hcc a y
+end dm
+
+/-! ## the executable model itself (complex numbers as pairs of reals, as the driver evaluates them) -/
+
+/-- matrix-DFT pair as modelled with concrete bases (any Q, shift, shapes, any `cos/sin/sqrt`): `mdftBack` is the
+adjoint of `mdftFwd` over `Cx ℝ` -/
+theorem mdft_model_adjoint (cosf sinf sqrtf : ℝ → ℝ) (twoPi sigma : ℝ) (m n M N : Nat) (Qy Qx sx sy : ℝ)
+    (x y : Model.C06.Mat (Cx ℝ)) :
+    Model.C06.ip2 Cx.conj M N y (Model.C06.mdftFwd cosf sinf sqrtf twoPi sigma m n M N Qy Qx sx sy x)
+      = Model.C06.ip2 Cx.conj m n (Model.C06.mdftBack cosf sinf sqrtf twoPi sigma m n M N Qy Qx sx sy y) x := by
+  unfold Model.C06.mdftFwd Model.C06.mdftBack
+  exact dft2_adjoint_model M m n N _ _ x y
+
+/-- mask-and-back as modelled end to end (per-axis Q from the physical widths, both shifts, conjugated mask, no sign):
+`fpmBackFull` is the adjoint of `fpmFwdFull` for every pupil shape, mask shape, complex mask and sampling -/
+theorem fpm_model_adjoint (cosf sinf sqrtf : ℝ → ℝ) (twoPi : ℝ) (p0 p1 M0 M1 : Nat)
+    (dx efl wl fdx sx sy : ℝ) (mask x y : Model.C06.Mat (Cx ℝ)) :
+    Model.C06.ip2 Cx.conj p0 p1 y (Model.C06.fpmFwdFull cosf sinf sqrtf twoPi p0 p1 M0 M1 dx efl wl fdx sx sy mask x)
+      = Model.C06.ip2 Cx.conj p0 p1 (Model.C06.fpmBackFull cosf sinf sqrtf twoPi p0 p1 M0 M1 dx efl wl fdx sx sy mask y) x :=
+  fpm_adjoint_model cosf sinf sqrtf twoPi p0 p1 M0 M1 dx efl wl fdx sx sy mask x y
+
+/-- the tabulated pipelines the driver runs return, inside the extents of the result, exactly the pure model
+(`mdft`, fixed-sampling, mask-and-back, Babinet), for every scalar type -/
+theorem driver_pipelines_agree {K : Type} [Num K] (cosf sinf sqrtf : K → K) (twoPi : K) (p0 p1 M0 M1 : Nat)
+    (dx efl wl fdx sx sy : K) (mask fpm lyot y : Model.C06.Mat (Cx K)) (i j : Nat) (hi : i < p0) (hj : j < p1) :
+    (Model.C06.fpmBackFullT cosf sinf sqrtf twoPi p0 p1 M0 M1 dx efl wl fdx sx sy mask y).fn i j
+        = Model.C06.fpmBackFull cosf sinf sqrtf twoPi p0 p1 M0 M1 dx efl wl fdx sx sy mask y i j ∧
+    (Model.C06.babinetBackFullT cosf sinf sqrtf twoPi p0 p1 M0 M1 dx efl wl fdx fpm lyot y).fn i j
+        = Model.C06.babinetBackFull cosf sinf sqrtf twoPi p0 p1 M0 M1 dx efl wl fdx fpm lyot y i j ∧
+    (Model.C06.fixedBackT cosf sinf sqrtf twoPi sx p0 p1 M0 M1 dx efl wl fdx sx sy mask).fn i j
+        = Model.C06.fixedBack cosf sinf sqrtf twoPi sx p0 p1 M0 M1 dx efl wl fdx sx sy mask i j :=
+  ⟨fpmBackFullT_agrees cosf sinf sqrtf twoPi p0 p1 M0 M1 dx efl wl fdx sx sy mask y y (fun _ _ _ _ => rfl) i j hi hj,
+   babinetBackFullT_agrees cosf sinf sqrtf twoPi p0 p1 M0 M1 dx efl wl fdx fpm lyot y i j hi hj,
+   fixedBackT_agrees cosf sinf sqrtf twoPi sx p0 p1 M0 M1 dx efl wl fdx sx sy mask mask (fun _ _ _ _ => rfl) i j hi hj⟩
+
+/-! ## non-vacuity: the hypotheses are met by the intended instances -/
+
+/-- `ℂ` with complex conjugation is an instance of `(C, conj)` -/
+example (M m n N : Nat) (Eo Ei f y : Model.C06.Mat ℂ) :
+    Model.C06.ip2 (starRingEnd ℂ) M N y (Model.C06.dft2 M m n N Eo f Ei)
+      = Model.C06.ip2 (starRingEnd ℂ) m n (Model.C06.dftBack (starRingEnd ℂ) M m n N Eo y Ei) f :=
+  triple_product_adjoint (starRingEnd ℂ) (fun a => by simp) M m n N Eo Ei f y
+
+/-- real arrays: `ℝ` with the identity -/
+example (n : Nat) (x y : Model.C06.Vec ℝ) :
+    Model.C06.ip (RingHom.id ℝ) n y (Model.C06.sgApply n (sgForwardX n) x)
+      = Model.C06.ip (RingHom.id ℝ) n (Model.C06.sgApply n (sgBackpropX n) y) x :=
+  shifted_difference_adjoint (RingHom.id ℝ) n x y
+
+/-- the DFT contract of `circ_filter_adjoint` / the DM theorems: with `F[j,k] = ω^{jk}` (`ω` unimodular) the inverse
+matrix `G = (1/n)·conj(F)ᵀ` has the required form, with the real constant `c = 1/n` -/
+example (n : Nat) (ω : ℂ) :
+    let F : Model.C06.Mat ℂ := fun j k => ω ^ (j * k)
+    let G : Model.C06.Mat ℂ := fun j k => (1 / (n : ℂ)) * (starRingEnd ℂ) (ω ^ (k * j))
+    (∀ i j, G i j = (1 / (n : ℂ)) * (starRingEnd ℂ) (F j i)) ∧ (starRingEnd ℂ) (1 / (n : ℂ)) = 1 / (n : ℂ) := by
+  intro F G
+  exact ⟨fun i j => rfl, by simp⟩
+
+/-- a concrete, parity-mixed instance of the shifted-difference pair on `ℚ` (n = 5) -/
+example : Model.C06.diffBack 5 (fun i => ((i + 1 : Nat) : ℚ)) 1 = -2 ∧ Model.C06.diffBack 5 (fun i => ((i + 1 : Nat) : ℚ)) 4 = 4 := by
+  constructor <;> norm_num [Model.C06.diffBack]
+
+/-- the stationarity hypotheses of the bias/gain theorems are satisfiable: `I = (0, 1)` has non-zero spread -/
+example : bgieDen 2 (fun i => (i : ℝ)) ≠ 0 := by
+  simp [bgieDen, Finset.sum_range_succ]; norm_num
 
 end C06
